@@ -327,6 +327,15 @@ impl<'a, D: AsRef<[u8]>, P: AsRef<[usize]>> Lend<'a, D, P> {
     }
 
     pub fn new_from(rca: &'a RearCodedList<D, P>, from: usize) -> Self {
+        if from >= rca.len() {
+            // Nothing to return, and there might be no block to start from
+            return Lend {
+                rca,
+                index: rca.len(),
+                data: &[],
+                buffer: Vec::new(),
+            };
+        }
         let block = from / rca.k;
         let offset = from % rca.k;
 
